@@ -20,7 +20,7 @@ RULE = ("PointsDataLoader: N in 1..9 x batch 1..10 x {no shuffle, every permutat
         "scripts x both trunk layouts; DataCondition(use_full_dataset) for norms 1,2,inf; distinct by configuration; "
         "non-trivial when more than one batch was produced")
 ASSUMPTIONS = ["reference model: explicit list of identity-coded pairs", "num_workers = 0 (single process)"]
-BOUNDS = {"quick": {"N": 9, "B": 4}, "thorough": {"N": 9, "B": 6}}
+BOUNDS = {"quick": {"N": 9, "B": 4}, "thorough": {"N": 12, "B": 8}}
 ITEM_LIMIT = {"quick": 900, "thorough": 3600}
 
 
@@ -66,7 +66,7 @@ def run_item(item):
 
     if item["kind"] == "points":
         N = item["N"]
-        for bs in range(1, 11):
+        for bs in range(1, max(11, N + 2)):
             for ntens in (1, 2, 3):
                 for drop in (False, True):
                     for sh in [None] + perm_scripts(N):
